@@ -403,6 +403,7 @@ def oracle(ctx):
     del EXECUTED[:]
     del PROJECTS[:]
     del SANDBOXED[:]
+    del FINGERPRINTS[:]
     # shares of the time budget: spec stream, then `bob dev` projects, then sandboxed specs; the rest is for the correspondence
     import time
     t = time.time()
@@ -414,6 +415,9 @@ def oracle(ctx):
     t = time.time()
     oracle_sandbox(ctx)
     ctx.notes["t_sandbox_s"] = round(time.time() - t, 1)
+    t = time.time()
+    oracle_fingerprint(ctx)
+    ctx.notes["t_fingerprint_s"] = round(time.time() - t, 1)
 
 
 # ------------------------------------------------------------------ full path: generated projects through `bob dev`
@@ -519,6 +523,8 @@ def judge_project(ctx, case, res):
             ok = False
         if sandboxed:
             ok = judge_view(ctx, case, res, key, e, st, rec, exec_of) and ok
+    if sandboxed:
+        ok = judge_probes(ctx, case, res, rec) and ok
     if case.get("weak_probe") and res.get("weak_rc") == 0 and res.get("weak_new_dirs"):
         ctx.violation("changing only the weak variable DW (%r -> %r) created new variants %r" %
                       (case["defines"]["DW"], case["weak_second"], res["weak_new_dirs"]), rec, "weak-variable-changes-variant")
@@ -598,13 +604,26 @@ def judge_view(ctx, case, res, key, e, st, rec, exec_of):
         if mode == "R" and p == own:
             ctx.violation("%s (sandbox %s): own workspace is not writable" % (key, case["sandbox"]), rec, "sandbox-workspace-readonly")
             ok = False
-    # nothing a step wrote outside its own workspace reached the real project directory
-    tag = lambda ws: ".wprobe" + own_tag(ws, res)
+    return ok
+
+
+def judge_probes(ctx, case, res, rec):
+    """nothing a sandboxed step wrote outside its own workspace reached the real project directory: every probe file found on the
+    host lies in a workspace and carries the tag ($PWD inside the sandbox) of that workspace's own step"""
+    d = res["dir"]
+    ok = True
     for f in res.get("probes", []):
         where = os.path.dirname(f)
-        name = os.path.basename(f)
-        if where == d or not where.endswith("/workspace"):
+        rel = os.path.relpath(where, d).split(os.sep)
+        st = res["steps"].get("%s/%s" % (rel[2], rel[1])) if len(rel) == 5 and rel[0] == "dev" and rel[4] == "workspace" else None
+        if st is None:
             ctx.violation("a sandboxed step created %s in the real project directory" % f, rec, "sandbox-write-escaped")
+            ok = False
+            continue
+        ex = st["spec"]["workspace"][1]
+        ex = ex if os.path.isabs(ex) else os.path.join(d, ex)
+        if os.path.basename(f) != ".wprobe" + ex.replace("/", "_"):
+            ctx.violation("a sandboxed step wrote %s into the workspace of another step" % f, rec, "sandbox-dependency-writable")
             ok = False
     return ok
 
@@ -859,6 +878,95 @@ def sandbox_cases(ctx):
     return [gen_sandbox_case(r, i, "slim" if i % 2 == 0 else "image") for i in range(n)]
 
 
+# ------------------------------------------------------------------ fingerprint scripts through `bob _invoke <spec> fingerprint`
+
+def run_fingerprint_case(arg):
+    """(worker) `bob _invoke spec fingerprint` in a child whose stdin is /dev/null, a pipe or a socket; HOME has a .bashrc"""
+    case, root, repo, python = arg
+    from gen import c13proj
+    base = os.path.join(root, "f%d" % case["idx"])
+    home = os.path.join(base, "home")
+    os.makedirs(home, exist_ok=True)
+    res = {"base": base}
+    try:
+        with open(os.path.join(home, ".bashrc"), "w") as f:
+            f.write("export LEAKED_FROM_BASHRC=1\n")
+        from bob.languages import BashLanguage
+        script = BashLanguage.mangleFingerprints([tools()["cat"] + " /proc/self/environ\n"], case["fpEnv"])
+        c = dict(case, paths=[], libraryPaths=[], ws="ws", args=[], allPaths=[], depPaths=[], toolPaths=[], env=case["stepEnv"])
+        d = spec_dict(c, base, "")
+        d["fingerprintScript"] = script
+        res["script"] = script
+        with open(os.path.join(base, "step.spec"), "w") as f:
+            json.dump(d, f)
+        env = dict(case["host"])
+        env["HOME"] = home
+        env["C13_STDIN"] = case["stdin"]
+        p = subprocess.run([python, c13proj.CHILD, repo, base, json.dumps(["_invoke", "step.spec", "fingerprint"])], env=env,
+                           stdout=subprocess.PIPE, stderr=subprocess.PIPE, stdin=subprocess.DEVNULL, timeout=300)
+        res["rc"] = p.returncode
+        res["err"] = p.stderr.decode("utf-8", "replace")[-500:]
+        res["env"] = c13proj.parse_environ(p.stdout)
+        res["home"] = home
+    except subprocess.TimeoutExpired:
+        res["timeout"] = True
+    except Exception as e:  # noqa
+        res["exception"] = "%s: %s" % (type(e).__name__, e)
+    return res
+
+
+def oracle_fingerprint(ctx):
+    if ctx.time_left() < ctx.budget * 0.15:
+        ctx.skip("fingerprint scripts through `bob _invoke` (time)")
+        return
+    r = ctx.subrng("fingerprint")
+    cases = []
+    for i in range(ctx.scale(9, 300)):
+        step_env = {r.choice(NAME_POOL[:9] + ["E1", "E2"]): gen_value(r) for _ in range(r.randrange(0, 5))}
+        fp_vars = r.sample(sorted(step_env) + ["U1"], r.randrange(0, len(step_env) + 1))
+        host = {"PATH": "/usr/bin:/bin", "LC_ALL": "C.UTF-8", "DECOY1": gen_value(r), "WL1": gen_value(r), "TERM": gen_value(r)}
+        cases.append({"idx": i, "stepEnv": step_env, "fpVars": fp_vars, "fpEnv": {k: v for k, v in step_env.items() if k in fp_vars},
+                      "whitelist": sorted(r.sample(["PATH", "HOME", "TERM", "WL1", "USER"], r.randrange(1, 5)) + ["HOME"]),
+                      "host": host, "preserve": False, "stdin": ["null", "pipe", "socket"][i % 3]})
+    root = os.path.join(ctx.tmp, "fp")
+    os.makedirs(root, exist_ok=True)
+    results = ctx.parallel(run_fingerprint_case, [(c, root, ctx.repo, sys.executable) for c in cases])
+    for case, res in zip(cases, results):
+        rec = {"kind": "fingerprint", "case": case}
+        ctx.case(dict(case, kind="fingerprint"))
+        if res.get("timeout") or "exception" in res:
+            ctx.skip("a `bob _invoke ... fingerprint` child did not finish")
+            continue
+        if res.get("rc") != 0:
+            ctx.violation("`bob _invoke step.spec fingerprint` failed: " + res.get("err", ""), rec, "fingerprint-invoke-failed")
+            continue
+        got = strip_internal(res["env"])
+        cwd = got.pop("BOB_CWD", "")
+        want = {k: v for k, v in case["host"].items() if k in case["whitelist"]}
+        want["HOME"] = res["home"]
+        want.update(case["fpEnv"])
+        ok = True
+        if "LEAKED_FROM_BASHRC" in got:
+            ctx.violation("the fingerprint script sourced ~/.bashrc (Bob's stdin: %s): LEAKED_FROM_BASHRC is set although it is neither in "
+                          "fingerprintVars nor whitelisted" % case["stdin"], rec, "fingerprint-sources-bashrc-on-%s-stdin" % case["stdin"])
+            got.pop("LEAKED_FROM_BASHRC")
+            ok = False
+        if not cwd.startswith(os.path.join(res["base"], ".bob-")):
+            ctx.violation("fingerprint script: BOB_CWD=%r is not its temporary directory" % cwd, rec, "fingerprint-cwd")
+            ok = False
+        if got != want:
+            diff = {k: (got.get(k), want.get(k)) for k in set(got) | set(want) if got.get(k) != want.get(k)}
+            leak = any(k in case["host"] and k not in want for k in got)
+            ctx.violation("fingerprint script environment differs from fingerprintVars + whitelist: (seen, declared) %r" % diff, rec,
+                          "fingerprint-host-variable-leak" if leak else "fingerprint-env-mismatch")
+            ok = False
+        ctx.count("oracle_fingerprint", "%s:%s" % (case["stdin"], "ok" if ok else "violation"))
+        FINGERPRINTS.append((case, res))
+
+
+FINGERPRINTS = []
+
+
 def oracle_sandbox(ctx):
     if not sandbox_available():
         ctx.skip("sandboxed steps: bob-namespace-sandbox -C fails here (no user namespaces); only the helper argv is compared with the model")
@@ -950,6 +1058,7 @@ def correspond(ctx):
     t = time.time()
     correspond_projects(ctx)
     correspond_sandbox(ctx)
+    correspond_fingerprint(ctx)
     ctx.notes["t_corr_projects_sandbox_s"] = round(time.time() - t, 1)
     t = time.time()
     correspond_pure(ctx)
@@ -1066,6 +1175,32 @@ def correspond_projects(ctx):
             ctx.disagree(rel, case, want, got)
         else:
             ctx.count("corr_project", rel.split(" ==")[0][:40])
+    ctx.trace_validated(len(reqs))
+
+
+def correspond_fingerprint(ctx):
+    """mangleFingerprints text and the environment `bob _invoke spec fingerprint` gave the script == model"""
+    reqs, checks = [], []
+    for case, res in FINGERPRINTS:
+        if "env" not in res or "script" not in res:
+            continue
+        got = strip_internal(res["env"])
+        got.pop("LEAKED_FROM_BASHRC", None)      # reported by the oracle (bash reads ~/.bashrc when stdin is a socket)
+        proc = {k: v for k, v in case["host"].items() if k in case["whitelist"]}
+        proc["HOME"] = res["home"]
+        proc["BOB_CWD"] = got.get("BOB_CWD", "")
+        reqs.append({"op": "fingerprint", "stepEnv": case["stepEnv"], "fpVars": case["fpVars"], "procEnv": proc})
+        checks.append((case, res["script"], got))
+    if not reqs:
+        return
+    for (case, script, got), m in zip(checks, ctx.lean(DRIVER, reqs)):
+        ctx.case(("fingerprint-corr", case))
+        if m.get("err") is not None or not script.startswith(m["preamble"] + "\n"):
+            ctx.disagree("BashLanguage.mangleFingerprints text starts with Model.fingerprintPreamble", case, script[:300], m.get("preamble", m))
+        elif strip_internal(m["env"]) != got:
+            ctx.disagree("environment of the fingerprint script (bob _invoke) == Model (fingerprintEnvOf, evalScript)", case, got, m["env"])
+        else:
+            ctx.count("corr_fingerprint", case["stdin"])
     ctx.trace_validated(len(reqs))
 
 
@@ -1206,6 +1341,20 @@ def replay(ctx, case):
         c["timeout"] = 900
         res = run_projects(ctx, [c], "replay")[0]
         judge_project(ctx, c, res)
+    elif k == "fingerprint":
+        c = case["case"]
+        root = os.path.join(ctx.tmp, "replay")
+        os.makedirs(root, exist_ok=True)
+        res = run_fingerprint_case((c, root, ctx.repo, sys.executable))
+        got = res.get("env", {})
+        if "LEAKED_FROM_BASHRC" in got:
+            ctx.violation("the fingerprint script sourced ~/.bashrc", case, "fingerprint-sources-bashrc-on-%s-stdin" % c["stdin"])
+        want = {k: v for k, v in c["host"].items() if k in c["whitelist"]}
+        want.update(c["fpEnv"])
+        extra = {k: v for k, v in strip_internal(got).items() if k not in want and k not in ("HOME", "BOB_CWD", "LEAKED_FROM_BASHRC")}
+        missing = {k: v for k, v in want.items() if got.get(k) != v and k != "HOME"}
+        if extra or missing:
+            ctx.violation("fingerprint environment differs: extra %r, wrong/missing %r" % (extra, missing), case, "fingerprint-env-mismatch")
     elif k == "sandbox":
         if not sandbox_available():
             print("replay: the sandbox helper does not work here")
